@@ -99,6 +99,10 @@ func (fc *fnCtx) anchor(st *state, kind string, ins ssa.Instruction, bind map[st
 // must evaluate to the same term as the channel operand, or name the struct
 // field the channel was loaded from.
 func (fc *fnCtx) anchorB(st *state, kind string, ins ssa.Instruction, bind map[string]Val, ch Val, after bool, cond string) {
+	fc.anchorBP(st, kind, ins, bind, ch, after, cond, ins.Pos())
+}
+
+func (fc *fnCtx) anchorBP(st *state, kind string, ins ssa.Instruction, bind map[string]Val, ch Val, after bool, cond string, pos token.Pos) {
 	if fc.blk == nil {
 		return
 	}
@@ -119,7 +123,7 @@ func (fc *fnCtx) anchorB(st *state, kind string, ins ssa.Instruction, bind map[s
 		}()
 		return t != "" && t == ch.T
 	}
-	fc.runAnchors(st, kind, match, 0, bind, after, cond, ins.Pos())
+	fc.runAnchors(st, kind, match, fc.ordOf(kind, pos), bind, after, cond, pos)
 }
 
 func (fc *fnCtx) anchorNamed(st *state, kind, short, full string, ins ssa.Instruction, bind map[string]Val, after bool) {
@@ -170,6 +174,20 @@ func (fc *fnCtx) collectSites() {
 			case *ssa.Store:
 				if t := fc.storeTarget(i); t != "" {
 					add("store:"+t, i.Pos())
+				}
+			case *ssa.Send:
+				add("send", i.Pos())
+			case *ssa.UnOp:
+				if i.Op == token.ARROW {
+					add("recv", i.Pos())
+				}
+			case *ssa.Select:
+				for _, s := range i.States {
+					if s.Dir == types.SendOnly {
+						add("send", s.Pos)
+					} else {
+						add("recv", s.Pos)
+					}
 				}
 			}
 		}
@@ -287,6 +305,12 @@ func (fc *fnCtx) execCall(st *state, ins ssa.Instruction, c *ssa.CallCommon, res
 			}
 			fc.trusted["dynamic calls of function values are pure functions of (callee, arguments) with no effect on modelled state"] = true
 			setRes(vals)
+			for k := range vals {
+				bind[fmt.Sprintf("$result%d", k)] = vals[k]
+			}
+			if len(vals) > 0 {
+				bind["$result"] = vals[0]
+			}
 			fc.anchorNamed(st, "call", "dyncall", "dyncall", ins, bind, true)
 			return
 		}
